@@ -31,6 +31,9 @@ type c05Case struct {
 	Loop   bool  `json:"loop,omitempty"`
 	Truth2 int   `json:"truth2,omitempty"`
 	Order2 []int `json:"order2,omitempty"`
+	// Two: two tokens reach the same fork one after the other from two start events (the second through a
+	// task whose answer stores the truth assignment Truth2); branches end on their own, no join
+	Two bool `json:"two,omitempty"`
 }
 
 func (c *c05Case) activated() []int { return c.activatedFor(c.Truth) }
@@ -197,7 +200,145 @@ func c05Cases(tier string, seed uint64) []fw.Case {
 			}
 		}
 	}
+	// two tokens at one fork, one after the other
+	for n := 1; n <= 2; n++ {
+		for _, def := range []bool{false, true} {
+			for t1 := 0; t1 < 1<<n; t1++ {
+				for t2 := 0; t2 < 1<<n; t2++ {
+					for _, order := range []int{0, 1} {
+						c := c05Case{N: n, Truth: t1, Truth2: t2, Default: def, DefPos: n * order, Two: true}
+						c.Name = fmt.Sprintf("two-n%d-def%v@%d-t%d-t%d", n, def, c.DefPos, t1, t2)
+						if !def && order == 1 {
+							continue
+						}
+						cs = append(cs, fw.MkCase("two-tokens", &c))
+					}
+				}
+			}
+		}
+	}
 	return fw.Number(cs)
+}
+
+// c05Two: s1 -> XM ; s2 -> hold -> XM ; XM -> OF (inclusive fork) -> b_i -> own end events. The first token is
+// routed with the initial truth assignment, the second after `hold` has stored Truth2. Each token on its own
+// gets a token on every true branch / the default branch alone / an error trace.
+func c05Two(c *c05Case, env *fw.Env, v *fw.V) {
+	g := gen.NewGraph("c05two")
+	s1 := g.Add(gen.Start, "s1", "")
+	s2 := g.Add(gen.Start, "s2", "")
+	hold := g.Add(gen.Task, "hold", "")
+	xm := g.Add(gen.Xor, "XM", "")
+	of := g.Add(gen.Or, "OF", "")
+	g.Connect(s1, xm, nil)
+	g.Connect(s2, hold, nil)
+	g.Connect(hold, xm, nil)
+	g.Connect(xm, of, nil)
+	var order []int
+	for i := 0; i < c.N; i++ {
+		if c.Default && i == c.DefPos {
+			order = append(order, c.N)
+		}
+		order = append(order, i)
+	}
+	if c.Default && c.DefPos >= c.N {
+		order = append(order, c.N)
+	}
+	for _, i := range order {
+		b := g.Add(gen.Task, fmt.Sprintf("b%d", i), "")
+		e := g.Add(gen.End, fmt.Sprintf("e%d", i), "")
+		if i == c.N {
+			f := g.Connect(of, b, nil)
+			of.Default = f.ID
+		} else {
+			g.Connect(of, b, &gen.Cond{Kind: "var", Var: fmt.Sprintf("c%d", i), Op: ">", Val: 0})
+			hold.Writes = append(hold.Writes, fmt.Sprintf("c%d", i))
+		}
+		g.Connect(b, e, nil)
+	}
+	defs, _, err := step.Parse(g)
+	if err != nil {
+		v.Inconclusive("parse", "%v", err)
+		return
+	}
+	perturb.Off()
+	vars := map[string]any{}
+	for i := 0; i < c.N; i++ {
+		vars[fmt.Sprintf("c%d", i)] = c.Truth >> i & 1
+	}
+	in, err := drive.New(env.Label, defs, drive.Opts{ExtraSubs: 1, Vars: vars})
+	if err != nil {
+		v.Violate("new-process-error", "error", "%v", err)
+		return
+	}
+	defer in.Cancel()
+	cls := fmt.Sprintf("two-tokens-default=%v", c.Default)
+	want := map[string]int{}
+	errs := 0
+	expect := func(truth int) {
+		a := c.activatedFor(truth)
+		if len(a) == 0 {
+			errs++
+		}
+		for _, i := range a {
+			want[fmt.Sprintf("b%d", i)]++
+		}
+	}
+	check := func(what string) bool {
+		q := in.Quiesce(step.Watchdog)
+		v.Add("qpoints", 1)
+		if !q.Quiescent {
+			v.Inconclusive("watchdog", "no quiescent point %s: %v", what, quiesce.Summary(q.Gs))
+			return false
+		}
+		for i := 0; i <= c.N; i++ {
+			b := fmt.Sprintf("b%d", i)
+			if got := in.Count("Task", b); got != want[b] {
+				v.Violate("fork-branches", cls, "%s: branch %s requested %d times, expected %d (truth assignments %d then %d, default %v)", what, b, got, want[b], c.Truth, c.Truth2, c.Default)
+				v.Log = in.Tail(40)
+				return false
+			}
+		}
+		if got := in.Count("ErrorNoFlow", "OF"); got != errs {
+			v.Violate("fork-error-count", cls, "%s: %d no-effective-flow error traces identifying the fork, expected %d (truth assignments %d then %d, default %v)", what, got, errs, c.Truth, c.Truth2, c.Default)
+			v.Log = in.Tail(40)
+			return false
+		}
+		return true
+	}
+	if err := in.Start(); err != nil {
+		v.Violate("start-error", "error", "%v", err)
+		return
+	}
+	expect(c.Truth)
+	if !check("after the first token reached the fork") {
+		return
+	}
+	res := map[string]any{}
+	for i := 0; i < c.N; i++ {
+		res[fmt.Sprintf("c%d", i)] = c.Truth2 >> i & 1
+	}
+	for _, r := range in.Pending() {
+		if r.Act == "hold" {
+			in.Answer(r, bpmn.DoWithResults(res))
+		}
+	}
+	expect(c.Truth2)
+	if !check("after the second token reached the fork") {
+		return
+	}
+	for guard := 0; guard < 3; guard++ {
+		for _, r := range in.Pending() {
+			in.Answer(r, bpmn.DoWithResults(nil))
+		}
+		in.Quiesce(step.Watchdog)
+	}
+	// (a token that found neither a true condition nor a default flow stays where it is: the statement asks
+	// for the error trace, not for completion)
+	if n := in.Count("CeaseFlow", ""); errs == 0 && n != 1 {
+		v.Violate("not-complete", cls, "every branch task answered but %d cease-flow traces", n)
+		v.Log = in.Tail(40)
+	}
 }
 
 func c05Run(c *c05Case, env *fw.Env, v *fw.V) {
@@ -462,13 +603,19 @@ func init() {
 				reps = cc.Reps
 			}
 			for i := 0; i < reps && !v.Violated(); i++ {
-				fw.Rep(env, i, func(env *fw.Env) { c05Run(&cc, env, v) })
+				fw.Rep(env, i, func(env *fw.Env) {
+					if cc.Two {
+						c05Two(&cc, env, v)
+					} else {
+						c05Run(&cc, env, v)
+					}
+				})
 				v.Add("runs", 1)
 			}
 			v.Nontrivial = true
 			return v
 		},
-		Rule:       "exhaustive grid: 1..4 conditional branches x all truth assignments x default present/absent x every subset of branches leading to the join (others end in their own end event) x all finishing orders of the activated branches; fork checked exactly (requests = true conditions / default alone / error trace), join checked against the window the statement gives (not before every activated joining branch delivered, exactly once by the time every token of the fork has arrived or ended, never twice); storm variants answer all branches concurrently with tracker hooks active; loop variants (n <= 3) send the token behind the join back through the same fork and join for a second activation with every truth assignment (stored by the answer of the task behind the join) and two finishing orders, all rules applied again per activation; every cell non-trivial; distinct = descriptor hash",
+		Rule:       "exhaustive grid: 1..4 conditional branches x all truth assignments x default present/absent x every subset of branches leading to the join (others end in their own end event) x all finishing orders of the activated branches; fork checked exactly (requests = true conditions / default alone / error trace), join checked against the window the statement gives (not before every activated joining branch delivered, exactly once by the time every token of the fork has arrived or ended, never twice); storm variants answer all branches concurrently with tracker hooks active; loop variants (n <= 3) send the token behind the join back through the same fork and join for a second activation with every truth assignment (stored by the answer of the task behind the join) and two finishing orders, all rules applied again per activation; two tokens reaching one fork one after the other from two start events (n <= 2, every pair of truth assignments, default absent / first / last): each token on its own gets its branches, the default alone, or an error trace; every cell non-trivial; distinct = descriptor hash",
 		Exhaustive: func(string) bool { return true },
 		Assumptions: []string{"branches contain single tasks; nested gateways inside inclusive blocks are C01's territory"},
 	})
